@@ -1,6 +1,7 @@
 package main
 
 import (
+	"strings"
 	"fmt"
 	"go/token"
 	"go/types"
@@ -362,19 +363,26 @@ func (c *Ctx) enterLoopHead(st *State, fr *Frame, li *loopInfo, pred *ssa.BasicB
 					}
 				}
 			}
+			isMapHeap := len(key) > 3 && (key[:3] == "MK_" || key[:3] == "MV_")
+			heapSort, elemSort := arrSort(info.Sort), info.Sort
+			if isMapHeap {
+				// map heaps are (Array Int (Array K V)): the element is the whole inner array of one map
+				heapSort = info.Sort
+				elemSort = Sort(strings.TrimSuffix(strings.TrimPrefix(string(info.Sort), "(Array Int "), ")"))
+			}
 			if precise {
-				h := c.heapCur(st, key, arrSort(info.Sort))
+				h := c.heapCur(st, key, heapSort)
 				for _, b := range bases {
 					ref := c.stableBaseTerm(st, fr, b.V)
 					for _, pf := range b.Path {
 						ref = c.loadField(st, ref, pf)
 					}
-					fv := c.fresh("lh_"+key, info.Sort)
+					fv := c.fresh("lh_"+key, elemSort)
 					h = sto(h, ref, fv)
 				}
 				st.heap[key] = h
 			} else {
-				c.heapHavoc(st, key, arrSort(info.Sort))
+				c.heapHavoc(st, key, heapSort)
 			}
 		}
 		for _, key := range sortedKeys(whole) {
@@ -645,6 +653,41 @@ func (c *Ctx) preciseCallWrites(fr *Frame, cc *ssa.CallCommon, fields map[string
 				for _, k := range []string{chLen, chVal, chClosed} {
 					out = append(out, pend{k, baseRef{V: a, Path: path}})
 				}
+			case "keys", "mapof":
+				// keys(x.f): keys and values of the map held in that field
+				var names []string
+				cur := e.Args[0]
+				for {
+					if f, ok := cur.(EField); ok {
+						names = append([]string{f.Name}, names...)
+						cur = f.X
+						continue
+					}
+					break
+				}
+				id, ok := cur.(EIdent)
+				if !ok {
+					return false
+				}
+				a := argByName(id.Name)
+				if a == nil {
+					return false
+				}
+				t := a.Type()
+				var path []fieldInfo
+				for _, n := range names {
+					fis, ok := c.resolveFieldChain(t, n)
+					if !ok {
+						return false
+					}
+					path = append(path, fis...)
+					t = fis[len(fis)-1].GoT
+				}
+				if _, isMap := t.Underlying().(*types.Map); !isMap {
+					return false
+				}
+				mi := c.mapInfo(t)
+				out = append(out, pend{mi.KeyHas, baseRef{V: a, Path: path}}, pend{mi.KeyVal, baseRef{V: a, Path: path}})
 			case "object":
 				id, ok := e.Args[0].(EIdent)
 				if !ok {
